@@ -123,6 +123,15 @@ func build(p *propCfg) (scratch string) {
 			trouble("instrumenting the working tree failed (does /repo build?): %v\n%s", err, out)
 		}
 		os.WriteFile(scratch+"/instrument-stats.json", out, 0644)
+		// export files for state the harness must reset between runs (scratch copy only)
+		exps, _ := filepath.Glob(filepath.Join(verifDir, "harness", "exports", "*_verif_export.go.txt"))
+		for _, e := range exps {
+			pkg := strings.TrimSuffix(filepath.Base(e), "_verif_export.go.txt")
+			b, _ := os.ReadFile(e)
+			if err := os.WriteFile(filepath.Join(scratch, "ecal", pkg, "verif_export.go"), b, 0644); err != nil {
+				trouble("writing export file: %v", err)
+			}
+		}
 	}
 	tmpl, err := os.ReadFile(filepath.Join(verifDir, "harness", "go.mod.tmpl"))
 	if err != nil {
